@@ -2,6 +2,7 @@
 import itertools
 import pickle
 
+import callguard
 import fw
 import gen_hist
 import instr
@@ -21,7 +22,8 @@ TRUSTED = [
 ]
 ASSUMPTIONS = ['one client; the clock is frozen during a call', 'iterators are consumed immediately (mutation between pages of an open iterator is out of scope)',
                'ordinary numeric keys inside (0, 999999999999999) are queue members by design and are kept out of histories that push with prefix None',
-               'histories with integer values outside SQLite\'s signed 64-bit range contain no incr (such a counter is outside the row model, like float counters)']
+               'histories with integer values outside SQLite\'s signed 64-bit range contain no incr (such a counter is outside the row model, like float counters)',
+               'get / pop / peekitem with fewer than both of their expire_time / tag flags: reference dictionary and table only (the row model returns value, expiry and tag)']
 
 
 class RefDict:
@@ -52,6 +54,124 @@ class RefDict:
             it[1], it[2], it[3] = value, exp, tag
 
 
+class Malformed:
+    """what a call handed back (or raised) when it is nothing a dictionary with expiry and tags can answer to that call"""
+
+    def __init__(self, text):
+        self.text = text
+
+    def __repr__(self):
+        return '<unexpected: %s>' % self.text
+
+
+class _NotAsked:
+    """the part of a result (expiry time / tag) the call did not ask for: equal to whatever the reference holds"""
+
+    def __eq__(self, other):
+        return True
+
+    def __ne__(self, other):
+        return False
+
+    __hash__ = None
+
+    def __repr__(self):
+        return '<not asked>'
+
+
+NA = _NotAsked()
+SENT = seqdrv.SENT
+CALL_SECONDS = 30          # wall time after which a single API call is taken not to return
+_HANGS = [0]
+
+
+def _flag_shape(r, et, tg, pair):
+    """The documented shape of a lookup result for the flags: value | (value, expire_time) | (value, tag) | (value, expire_time, tag), where
+    `value` is a (key, value) pair for peekitem.  -> (value, expire_time or NA, tag or NA), or Malformed"""
+    n = 1 + int(bool(et)) + int(bool(tg))
+    if n == 1:
+        v, e, t = r, NA, NA
+    else:
+        if type(r) is not tuple or len(r) != n:
+            return Malformed('%s where a %d-tuple (value%s%s) is documented' % ('the bare default' if r is SENT else repr(r), n,
+                                                                                   ', expire_time' if et else '', ', tag' if tg else ''))
+        v = r[0]
+        e = r[1] if et else NA
+        t = r[-1] if tg else NA
+    if pair and (type(v) is not tuple or len(v) != 2):
+        return Malformed('%r where a (key, value) pair is documented' % (v,))
+    return v, e, t
+
+
+class Runner(seqdrv.Runner):
+    """the sequential driver; additionally (1) get / pop / peekitem items may carry 'et' / 'tg' (the expire_time / tag flags of the call;
+    the shared driver always passes both), and (2) whatever a call does that the driver cannot read as a result of that call -- a result of
+    an undocumented shape, an exception no dictionary raises -- is recorded as Malformed instead of ending the run."""
+
+    def call(self, item):
+        try:
+            with callguard.bounded(CALL_SECONDS if _HANGS[0] < 2 else 2, item['op']):       # (after two such calls the limit drops: every one costs its limit)
+                return self.call_unbounded(item)
+        except callguard.CallDidNotReturn:
+            _HANGS[0] += 1
+            return Malformed('the call did not return within %d s of wall time' % CALL_SECONDS), 'RRaise EStore'
+
+    def call_unbounded(self, item):
+        a, op = item['args'], item['op']
+        try:
+            if op in ('get', 'pop', 'peekitem') and ('et' in a or 'tg' in a):
+                return self.flag_call(item), 'RDefault'          # (monitor only: these histories are not rendered for the model)
+            if op in ('get', 'pop', 'peekitem'):
+                # the shared driver's call with both flags, its result read through the shape check; same result and model term as the shared driver
+                r = self.flag_call({'op': op, 'args': dict(a, et=True, tg=True)})
+                if isinstance(r, Malformed):
+                    return r, 'RRaise EStore'
+                if r == 'default':
+                    return r, 'RDefault'
+                if len(r) == 2 and r[0] == 'raise':
+                    return r, {'KeyError-empty': 'RRaise EEmpty', 'KeyError': 'RRaise EKeyError'}[r[1]]
+                if len(r) == 4 and r[0] == 'handle':
+                    return r, 'RVal (FHandleOn %s) %s %s' % (fw.cbytes(r[1]), fw.copt(seqdrv.tticks(r[2])), seqdrv.tag_term(r[3]))
+                v, e, t = r
+                if op == 'peekitem':
+                    kt, raw = seqdrv.key_term(self.cache.disk, v[0])
+                    return r, 'RKV %s %s %s %s %s' % (kt, fw.cbool(raw), seqdrv.res_term_value(v[1]), fw.copt(seqdrv.tticks(e)), seqdrv.tag_term(t))
+                return r, 'RVal %s %s %s' % (seqdrv.res_term_value(v), fw.copt(seqdrv.tticks(e)), seqdrv.tag_term(t))
+            return seqdrv.Runner.call(self, item)
+        except Exception as e:  # noqa
+            return Malformed('%s: %s' % (type(e).__name__, str(e)[:200])), 'RRaise EStore'
+
+    def flag_call(self, item):
+        c, a, op = self.cache, item['args'], item['op']
+        et, tg = bool(a.get('et')), bool(a.get('tg'))
+        try:
+            if op == 'peekitem':
+                r = _flag_shape(c.peekitem(last=a.get('last', True), expire_time=et, tag=tg), et, tg, True)
+                return r
+            key = self.objs[a['k']]
+            if op == 'get':
+                r = c.get(key, default=SENT, read=a.get('read', False), expire_time=et, tag=tg)
+            else:
+                r = c.pop(key, default=SENT, expire_time=et, tag=tg)
+            r = _flag_shape(r, et, tg, False)
+            if isinstance(r, Malformed):
+                return r
+            v, e, t = r
+            if v is SENT:
+                if (et and e is not None) or (tg and t is not None):
+                    return Malformed('default with expire_time %r, tag %r' % (e, t))
+                return 'default'
+            if a.get('read') and hasattr(v, 'read'):
+                data = v.read()
+                v.close()
+                return ('handle', data, e, t)
+            return (v, e, t)
+        except KeyError as e:
+            if e.args and e.args[0] == 'dictionary is empty':
+                return ('raise', 'KeyError-empty')
+            return ('raise', 'KeyError')
+
+
 def value_of(runner, idx):
     v = runner.objs[idx]
     return v.data if isinstance(v, Stream) else v
@@ -76,6 +196,12 @@ def check_trace(runner, tr, cfg, stats, counting_get):
             exp = now + a['expire']
         bad = None
         explicit = set()        # reference items this call may remove explicitly
+        if isinstance(r, Malformed):
+            flags = ''.join(', %s=%r' % (nm, bool(a[fl])) for fl, nm in (('et', 'expire_time'), ('tg', 'tag')) if fl in a)
+            viol.append(('unexpected_result:%s' % op, '%s(%s%s)%s: %s' % (
+                op, repr(key) if 'k' in a else '', flags or (', expire_time=True, tag=True' if op in ('get', 'pop', 'peekitem') else ''),
+                ' on %s key' % ('a live' if live else 'an expired' if it is not None else 'an absent') if 'k' in a else '', r.text), i))
+            break
         if op == 'set':
             ref.set(key, value_of(runner, a['v']), exp, a.get('tag'))
             if r is not True:
@@ -254,7 +380,7 @@ def run_histories(ctx, res, nhist, length, stats, many_keys=False):
         if boundary:
             g.vals = g.vals + INT_BOUNDARIES[(h + 1) % 3::3]
         hist = g.history(length)
-        r = seqdrv.Runner(ctx, cfg, observe_every=1)
+        r = Runner(ctx, cfg, observe_every=1)
         r.objs = g.objs
         tr = r.run(hist)
         counting = not (cfg.policy in ('least-recently-stored', 'none') and not cfg.statistics) or True
@@ -306,7 +432,7 @@ def exhaustive_short(ctx, res, stats, length):
             now += [0, 1][(si + j) % 2]
             op, a = calls[ci]
             hist.append({'op': op, 'args': dict(a), 'now': now})
-        r = seqdrv.Runner(ctx, cfg, observe_every=1)
+        r = Runner(ctx, cfg, observe_every=1)
         r.objs = objs
         tr = r.run(hist)
         viol = check_trace(r, tr, cfg, stats, True)
@@ -342,7 +468,7 @@ def directed(ctx, res, stats):
         hist.append({'op': 'iter', 'args': {}, 'now': now + 1})
         hist.append({'op': 'clear', 'args': {}, 'now': now + 2})
         hist.append({'op': 'len', 'args': {}, 'now': now + 2})
-        r = seqdrv.Runner(ctx, cfg, observe_every=1)
+        r = Runner(ctx, cfg, observe_every=1)
         r.objs = objs
         tr = r.run(hist)
         viol = check_trace(r, tr, cfg, stats, True)
@@ -359,7 +485,7 @@ def directed(ctx, res, stats):
                 {'op': 'peekitem', 'args': {'last': last}, 'now': 1010.0},
                 {'op': 'len', 'args': {}, 'now': 1010.0},
                 {'op': 'iter', 'args': {}, 'now': 1010.0}]
-        r = seqdrv.Runner(ctx, cfg, observe_every=1)
+        r = Runner(ctx, cfg, observe_every=1)
         r.objs = objs
         tr = r.run(hist)
         viol = check_trace(r, tr, cfg, stats, True)
@@ -400,7 +526,12 @@ def run(ctx, big=False):
                 '+-2^31, +-2^53, +-2^63, +-2^64 (24 integers: each stored as a key with another one as its value, looked up, re-added, replaced, touched, iterated '
                 'in insertion and key order both ways, popped, deleted; also mixed into every fifth random history, which then has no incr) carried by all '
                 'three sides (the model\'s VInt is any Z); after every call: result vs reference, table contents vs reference (every disappearance '
-                'must be explained by expiry or eviction), model vs table.  non-trivial = the call did not return the default.')
+                'must be explained by expiry or eviction), model vs table.  non-trivial = the call did not return the default.  Optional result flags: '
+                'get / get(read=True) / pop / peekitem (both ends) with each of the 4 expire_time x tag combinations (result shape value | (value, expire_time) | '
+                '(value, tag) | (value, expire_time, tag), the same shape around the default) on a key that was never stored / is live without and with ttl and '
+                'tag / has expired but is still stored / was popped / was deleted, inline and file-backed, each removing lookup repeated on the then absent key, '
+                'plus random histories with the flags drawn per call; reference dictionary and table only.  A result of any other shape, or an exception '
+                'no dictionary raises, is a violation (unexpected_result:<op>), never the end of the run.')
     stats = {'ops': {}, 'lazy_expired': 0, 'evicted': 0, 'max_rows': 0, 'short_sequences': 0}
     thorough = not ctx.quick or big
     t0, r0 = exhaustive_short(ctx, res, stats, 3 if not thorough else 4)
@@ -410,11 +541,13 @@ def run(ctx, big=False):
     t4, r4 = directed_nan_keys(ctx, res, stats)
     t5, r5 = directed_raw_twins(ctx, res, stats)
     t6, r6 = directed_int_boundaries(ctx, res, stats)
+    flag_variants(ctx, res, stats, thorough)
     if not ctx.search_mode:
         correspondence(ctx, res, t0 + t1 + t2 + t3 + t4 + t5 + t6, r0 + r1 + r2 + r3 + r4 + r5 + r6)
     res.extra.update({'op_histogram': stats['ops'], 'items_removed_lazily_after_expiry': stats['lazy_expired'],
                       'items_evicted_at_limit': stats['evicted'], 'largest_table': stats['max_rows'],
-                      'short_sequences': stats['short_sequences'], 'int_boundary_calls': stats.get('int_boundary_calls', 0)})
+                      'short_sequences': stats['short_sequences'], 'int_boundary_calls': stats.get('int_boundary_calls', 0),
+                      'flag_variant_calls': stats.get('flag_variant_calls', 0)})
     return res
 
 
@@ -438,7 +571,7 @@ def directed_nan_keys(ctx, res, stats):
                 {'op': 'iterkeys', 'args': {'reverse': False}, 'now': 1004.0},
                 S(0, 6, 1005.0), {'op': 'pop', 'args': {'k': 5}, 'now': 1006.0}, {'op': 'len', 'args': {}, 'now': 1006.0},
                 {'op': 'iter', 'args': {}, 'now': 1006.0}]
-        r = seqdrv.Runner(ctx, cfg, observe_every=1)
+        r = Runner(ctx, cfg, observe_every=1)
         r.objs = objs
         tr = r.run(hist)
         viol = check_trace(r, tr, cfg, stats, True)
@@ -476,7 +609,7 @@ def directed_raw_twins(ctx, res, stats):
                 {'op': 'get', 'args': {'k': ka, 'read': False}, 'now': 1003.0}, {'op': 'get', 'args': {'k': kb, 'read': False}, 'now': 1003.0},
                 {'op': 'delete', 'args': {'k': ka}, 'now': 1004.0},
                 {'op': 'iterkeys', 'args': {'reverse': False}, 'now': 1004.0}, {'op': 'iterkeys', 'args': {'reverse': True}, 'now': 1004.0}]
-        r = seqdrv.Runner(ctx, cfg, observe_every=1)
+        r = Runner(ctx, cfg, observe_every=1)
         r.objs = objs
         tr = r.run(hist)
         viol = check_trace(r, tr, cfg, stats, True)
@@ -556,7 +689,7 @@ def directed_int_boundaries(ctx, res, stats):
         call('iter')
         call('clear')
         call('len')
-        r = seqdrv.Runner(ctx, cfg, observe_every=1)
+        r = Runner(ctx, cfg, observe_every=1)
         r.objs = objs
         tr = r.run(hist)
         viol = check_trace(r, tr, cfg, stats, True)
@@ -579,6 +712,90 @@ def directed_int_boundaries(ctx, res, stats):
     return terms, recs
 
 
+FLAG_COMBOS = [(False, False), (True, False), (False, True), (True, True)]
+
+
+def flag_variants(ctx, res, stats, thorough):
+    """get / pop / peekitem with every combination of their expire_time / tag flags (the shared driver always passes both): the documented
+    result is the value alone, (value, expire_time), (value, tag) or (value, expire_time, tag) -- for a key that is absent, was already
+    popped or has expired the same shape around the default.  Directed: every key state {never stored, live without / with ttl and tag,
+    expired but still stored, popped, deleted} x inline / file-backed value x {get, get(read=True), pop, peekitem at both ends} x 4 flag
+    combinations, each lookup twice in a row; random: the histories of run_histories with the flags drawn per call.  Reference dictionary
+    and table check only (the Coq row model returns all three parts: these calls are not rendered for it)."""
+    n = 0
+    states = ['absent', 'live', 'live_meta', 'expired', 'popped', 'deleted']
+    for si, state in enumerate(states):
+        for big in (False, True):
+            for pi, policy in enumerate(['none', 'least-recently-used'] if thorough else [['none', 'least-recently-used'][(si + int(big) + ctx.seed) % 2]]):
+                cfg = seqdrv.Config(policy=policy, statistics=bool((si + pi) % 2), min_file_size=16, cull_limit=0)
+                objs = ['other', 'k', 'v' * 40 if big else 7, 'o' * 30, 'never']
+                hist = []
+                now = [1000.0]
+
+                def call(op, step=0.0, **a):
+                    now[0] += step
+                    hist.append({'op': op, 'args': a, 'now': now[0]})
+                call('set', k=0, v=3, expire=None, tag='t0')
+                if state in ('live', 'popped', 'deleted'):
+                    call('set', k=1, v=2, expire=None, tag=None)
+                elif state == 'live_meta':
+                    call('set', k=1, v=2, expire=3600, tag='t1')
+                elif state == 'expired':
+                    call('set', k=1, v=2, expire=1, tag='t1')
+                    now[0] += 5
+                if state == 'popped':
+                    call('pop', k=1, et=True, tg=False)
+                elif state == 'deleted':
+                    call('delete', k=1)
+                for et, tg in FLAG_COMBOS:
+                    call('get', k=1, read=False, et=et, tg=tg)
+                    call('get', k=1, read=True, et=et, tg=tg)
+                    call('get', k=4, read=False, et=et, tg=tg)
+                    call('peekitem', last=True, et=et, tg=tg)
+                    call('peekitem', last=False, et=et, tg=tg)
+                for et, tg in FLAG_COMBOS:
+                    # the removing lookup: on the key as it is, again on the now absent key, then after storing it anew
+                    call('pop', k=1, et=et, tg=tg)
+                    call('pop', k=1, et=et, tg=tg)
+                    call('pop', k=4, et=et, tg=tg)
+                    call('len')
+                    if state in ('live', 'live_meta', 'expired'):
+                        call('set', step=1.0, k=1, v=2, expire={'live': None, 'live_meta': 3600, 'expired': 1}[state], tag=None if state == 'live' else 't1')
+                        if state == 'expired':
+                            now[0] += 5
+                call('pop', k=0, et=True, tg=True)
+                for et, tg in FLAG_COMBOS:
+                    call('peekitem', step=10.0, last=True, et=et, tg=tg)          # nothing live is left
+                call('iter')
+                n += run_flag_history(ctx, res, stats, objs, hist, cfg, 'directed: key %s, %s value' % (state, 'file-backed' if big else 'inline'))
+    nhist = 40 if thorough else 8
+    pols = ['least-recently-stored', 'least-recently-used', 'none', 'least-frequently-used']
+    for h in range(nhist):
+        cfg = seqdrv.Config(policy=pols[h % 4], statistics=(h % 3 == 0), tag_index=(h % 5 == 0), min_file_size=[16, 0, 64][h % 3], cull_limit=[0, 10, 2, 0][(h // 2) % 4])
+        w = dict(W)
+        w.update({'get': 20, 'pop': 12, 'peekitem': 6})
+        g = gen_hist.Gen(ctx.rng, cfg, weights=w, keys=gen_hist.KEYS)
+        hist = g.history(80)
+        for item in hist:
+            if item['op'] in ('get', 'pop', 'peekitem'):
+                item['args']['et'], item['args']['tg'] = FLAG_COMBOS[ctx.rng.randrange(4)]
+        n += run_flag_history(ctx, res, stats, g.objs, hist, cfg, 'random')
+    stats['flag_variant_calls'] = n
+
+
+def run_flag_history(ctx, res, stats, objs, hist, cfg, what):
+    r = Runner(ctx, cfg, observe_every=1)
+    r.objs = objs
+    tr = r.run(hist)
+    viol = check_trace(r, tr, cfg, stats, True)
+    for rec in tr.calls:
+        res.count([rec['item']['op'], repr(sorted(rec['item']['args'].items())), rec['item']['now'], 'flags', what, cfg.policy], nontrivial=rec['res'] != 'default')
+    for sig, desc, idx in viol[:1]:
+        res.violations.append(fw.Violation(sig, 'optional result flags (%s): %s' % (what, desc),
+                                           dict(gen_hist.history_json(objs, hist[:idx + 1], cfg), check='history', failing_call=idx)))
+    return len(tr.calls)
+
+
 def search(ctx, broken):
     return run(ctx, big=True)
 
@@ -591,7 +808,7 @@ def replay(payload):
     objs, hist, cfg = gen_hist.history_from_json(case)
     ctx = fw.Ctx('C03', 'quick', 1)
     try:
-        r = seqdrv.Runner(ctx, cfg, observe_every=1)
+        r = Runner(ctx, cfg, observe_every=1)
         r.objs = objs
         tr = r.run(hist)
         stats = {'ops': {}, 'lazy_expired': 0, 'evicted': 0, 'max_rows': 0, 'short_sequences': 0}
